@@ -303,7 +303,7 @@ Proof.
   destruct (r_obj r) as [seed tr|] eqn:Eo.
   - bind_step H E2 n s2. bind_step H E3 w s3. apply get_w_eq in E3 as [-> ->].
     bind_step H E4 uu s4. apply emit_eq in E4 as [D4 T4].
-    destruct (Nat.ltb n k); [inversion H|]. apply ret_eq in H as [_ ->].
+    destruct (Nat.ltb n (hook_fails k)); [inversion H|]. apply ret_eq in H as [_ ->].
     intros Hd. rewrite D4 in Hd. eexists. split; [rewrite T4, Hd; now left|].
     left. eexists _, _, _. split; [reflexivity|exact R1].
   - apply ret_eq in H as [_ ->]. intros Hd. eexists. split; [apply T1, Hd|]. right. exists r. auto.
